@@ -137,6 +137,7 @@ class Walker:
         self.eng, self.cache, self.fk, self.flags = eng, cache, fk, dict(flags)
         self.exits = []  # (state, node)
         self.first_dirty = {}
+        self.refreshed = False
 
     # state: frozenset of dirt tokens -> we track for each token the node that caused it
     def run(self):
@@ -337,6 +338,7 @@ class Walker:
         return st | {tok}
 
     def apply_refresh(self, st, tok):
+        self.refreshed = True
         if tok == "full":
             return frozenset()
         return frozenset(x for x in st if x != tok)
@@ -437,7 +439,7 @@ class Engine:
         self._stack.discard(key)
         dirty_exits = [(st, n) for st, n in exits if st]
         touched = bool(w.first_dirty)
-        refreshed = self._has_refresh(cache, fk)
+        refreshed = self._has_refresh(cache, fk) or w.refreshed
         if dirty_exits:
             verdict = "DIRTY"
         elif touched or refreshed:
@@ -598,5 +600,5 @@ def _history(repo, res):
     # one guard for all truncations
     parents = {id(mod.parent.get(t)) for t in truncs.values()}
     guard = mod.parent.get(next(iter(truncs.values()))) if truncs else None
-    ok = len(parents) == 1 and isinstance(guard, ast.If) and "max_history_length" in norm(guard.test) and "len(self." in norm(guard.test) and isinstance(guard.test, ast.Compare) and isinstance(guard.test.ops[0], ast.Gt)
+    ok = len(parents) == 1 and isinstance(guard, ast.If) and norm(guard.test) in ["len(self.%s) > max_history_length" % h for h in HISTORY_PAIRS]
     res.check("HISTORY", "update_initial_state: all truncations under one `len(history) > max_history_length` guard", ok, mod, guard or fn, "history truncation guard", "history lists must be truncated together so that they keep equal length", qualname="DynamicObstacle.update_initial_state")
